@@ -279,7 +279,14 @@ def build(desc):
     b.param_types = []
     for m in desc['methods']:
         t = ty_of(m['ty'])
-        if not m.get('plain'):
+        if m.get('decl') == 'cc':               # customised twice
+            t = t.customize(min_occurs=1).customize(nillable=False)
+        elif m.get('decl') == 'arr_cust':       # Array of a customised class
+            t = Array(ty_of(m['ty'][1]).customize(nillable=False))
+        elif m.get('decl') == 'arr_mand':       # Array(Mandatory(P)): the item class is customised twice over
+            from spyne.model.complex import Mandatory
+            t = Array(Mandatory(ty_of(m['ty'][1])))
+        elif not m.get('plain'):
             t = t.customize(min_occurs=m['min'], nillable=m['nillable'])     # a customised variant of the declared class
         b.param_types.append(t)
 
@@ -314,7 +321,7 @@ def protocol(name, poly, soft=False):
 
 def get_app(desc, b, proto, poly, soft=False):
     from spyne import Application
-    key = (proto, poly, soft)
+    key = (proto, poly, soft, getattr(b, 'gen', 0))
     if key not in b.apps:
         app = Application([b.service], desc['tns'], in_protocol=protocol(proto, poly, soft),
                           out_protocol=protocol(proto, poly, soft), name='App')
@@ -324,6 +331,7 @@ def get_app(desc, b, proto, poly, soft=False):
             d = b.service.public_methods[m['name']]
             full.append(d.in_message)
             full.append(d.out_message)
+        full += list(getattr(b, 'extra', []))          # classes defined after the program was first used
         app._c16_classes = full
         b.apps[key] = app
     return b.apps[key]
@@ -986,7 +994,7 @@ def ref_xml(desc, ty, name, v):
         return (name, ('leaf', leaf_text(v) or None))
     if v[0] == 'list':
         et = ty[1]
-        en = elem_name(desc, et)
+        en = ty[2] if len(ty) > 2 else elem_name(desc, et)
         return (name, ('arr', [ref_xml(desc, et, en, x) for x in v[1]]))
     kids = []
     for f, x in zip(U.flat_fields(desc, v[1]), v[2]):          # ancestors' members first, then own
@@ -1109,7 +1117,7 @@ def value_shape(desc, ty, v):
     return ','.join(sorted(tags))
 
 
-def oracle_case(check, desc, b, mi, v, proto, poly, report=True):
+def oracle_case(check, desc, b, mi, v, proto, poly, report=True, extra=None, tag=None):
     """one value through the pipeline; returns the list of (key, what) the property is violated by"""
     from lxml import etree
     m = desc['methods'][mi]
@@ -1122,6 +1130,8 @@ def oracle_case(check, desc, b, mi, v, proto, poly, report=True):
     fails = []
     pre = 'C16|%s|poly=%s' % (family(proto), 'on' if poly else 'off')
     shape = value_shape(desc, m['ty'], v)
+    if tag:
+        shape = tag + ',' + shape
     r = observe(lb.call, m['name'], sent)
     ORACLE['roundtrips'] += 1
     ORACLE['documents'] += len(lb.trace)
@@ -1193,8 +1203,10 @@ def oracle_case(check, desc, b, mi, v, proto, poly, report=True):
                               'members of the %s are not in the order ancestors first, then own: %r' % (which, doc)))
     if report:
         for key, what in fails:
-            report_fail(check, key, what, {'kind': 'roundtrip', 'program': desc, 'method': mi, 'value': v, 'protocol': proto,
-                                      'polymorphic': poly})
+            rp = {'kind': 'roundtrip', 'program': desc, 'method': mi, 'value': v, 'protocol': proto, 'polymorphic': poly}
+            if extra:
+                rp.update(extra)
+            report_fail(check, key, what, rp)
     return fails
 
 
@@ -1323,11 +1335,14 @@ def _prog(tns, classes, decls):
     classes = [dict(c) for c in classes]
     n_user = len(classes)
     methods = []
-    for i, (ty, mn, nil, plain) in enumerate(decls):
+    for i, d in enumerate(decls):
+        ty, mn, nil, plain = d[:4]
         classes.append({'ns': tns, 'name': 'm%d' % i, 'parent': None, 'fields': [_f('x', ty, mn, 1, nil)], 'msg': True})
         classes.append({'ns': tns, 'name': 'm%dResponse' % i, 'parent': None, 'fields': [_f('m%dResult' % i, ty, mn, 1, nil)], 'msg': True})
         methods.append({'name': 'm%d' % i, 'ty': ty, 'min': mn, 'nillable': nil, 'in': n_user + 2 * i, 'out': n_user + 2 * i + 1,
                         'plain': plain})
+        if len(d) > 4:
+            methods[-1]['decl'] = d[4]
     return {'tns': tns, 'classes': classes, 'n_user': n_user, 'methods': methods}
 
 
@@ -1377,6 +1392,145 @@ def corpus():
                 [(0, ('obj', 3, [('obj', 2, [('int', 1), ('obj', 1, [('int', 1), ('text', 'q')]),
                                              ('list', [('obj', 1, [('none',), ('none',)]), ('obj', 0, [('int', 2)])])])]))]))
     return out
+
+
+# ------------------------------------------------------------------ growing hierarchies (oracle only)
+def extend_program(desc, b, new):
+    """define further subclasses AFTER the program has been used; plain primitive members, so that no
+    customize() / Array() call (which flush the memoised subclass lists) happens on the way"""
+    from spyne.model.complex import ComplexModelMeta
+    from spyne.model.primitive import Integer, Unicode, Boolean
+    prim = {'int': Integer, 'text': Unicode, 'bool': Boolean}
+    if not hasattr(b, 'extra'):
+        b.extra = []
+    for c in new:
+        full = next(iter(b.apps.values()))._c16_classes
+        base = full[c['parent']]
+        ti = [(f['name'], prim[f['ty'][1]]) for f in c['fields']]
+        k = ComplexModelMeta(str(c['name']), (base,), {'__namespace__': c['ns'], '_type_info': ti})
+        desc['classes'].append(dict(c))
+        b.extra.append(k)
+        for app in b.apps.values():
+            app._c16_classes.append(k)
+
+
+def grow_plan(rng, desc):
+    """new subclasses below a root, below a middle class and below a leaf of the hierarchies the
+    methods declare"""
+    new, seen = [], set()
+    nxt = len(desc['classes'])
+    for m in desc['methods']:
+        t = m['ty']
+        while t[0] == 'arr':
+            t = t[1]
+        if t[0] != 'ref' or t[1] >= desc['n_user'] or t[1] in seen:
+            continue
+        seen.add(t[1])
+        subs = [s for s in U.subclasses(desc, t[1]) if placed(desc, s, t[1])]
+        kids = lambda c: [s for s in subs if desc['classes'][s]['parent'] == c]
+        root = t[1]
+        middles = [s for s in subs if s != root and kids(s)]
+        leaves = [s for s in subs if not kids(s)]
+        parents = [root]
+        if middles:
+            parents.append(rng.choice(middles))
+        if leaves:
+            parents.append(rng.choice(leaves))
+        for p in parents:
+            if p in [n['parent'] for n in new]:
+                continue
+            new.append({'ns': desc['classes'][p]['ns'], 'name': 'G%d' % nxt, 'parent': p,
+                        'fields': [{'name': 'g%d' % nxt, 'ty': ('prim', rng.choice(U.PRIMS)), 'min': 0, 'max': 1,
+                                    'nillable': True, 'kind': 'elem'}]})
+            nxt += 1
+    return new
+
+
+def grown_value(rng, desc, ty, g):
+    """a value of declared type ty whose (first) object is an instance of the new class g"""
+    if ty[0] == 'arr':
+        return ('list', [grown_value(rng, desc, ty[1], g), gen_value(rng, desc, ty[1], 1, True, 0.0)])
+    vals = [gen_field_value(rng, desc, f, 1, True) for f in U.flat_fields(desc, g)]
+    return ('obj', g, vals)
+
+
+def run_growing(check, desc, warm, new, rng=None, only=None):
+    """(1) use the tree through all six protocols, (2) define the new subclasses, (3) send instances of the
+    new classes where the old bases are declared: dict protocols through the applications that already
+    exist (their subclass lookup is Python-level), all six through fresh applications over the same
+    classes (the interface registers classes when the application is built)"""
+    import copy as _copy
+    before = _copy.deepcopy(desc)
+    b = build(desc)
+    for mi, v in warm:
+        for proto in XML_PROTOS + DICT_PROTOS:
+            oracle_case(check, desc, b, mi, v, proto, True)
+    extend_program(desc, b, new)
+    first = len(desc['classes']) - len(new)
+    todo = only
+    if todo is None:
+        todo = []
+        for gi in range(len(new)):
+            g = first + gi
+            for mi, m in enumerate(desc['methods']):
+                t = m['ty']
+                while t[0] == 'arr':
+                    t = t[1]
+                if t[0] == 'ref' and t[1] < desc['n_user'] and placed(desc, g, t[1]):
+                    todo.append((mi, grown_value(rng, desc, m['ty'], g)))
+    out = []
+    for fresh in (False, True):
+        b.gen = 1 if fresh else 0
+        for mi, v in todo:
+            for proto in (XML_PROTOS + DICT_PROTOS) if fresh else DICT_PROTOS:
+                extra = {'kind': 'growing', 'program': before, 'grow': new, 'warm': warm, 'fresh': fresh}
+                out += oracle_case(check, desc, b, mi, v, proto, True, extra=extra,
+                                   tag='grown-fresh-app' if fresh else 'grown-same-app')
+                check.count(('growing', fresh, proto, json.dumps(before, sort_keys=True), repr(v)))
+    b.gen = 0
+    return out
+
+
+def oracle_growing(check, tier):
+    rng = check.rng
+    # a fixed witness first: Base <- Sub, then Sub2(Sub) and Sub3(Base) are defined after the first calls
+    P = lambda p: ('prim', p)
+    d0 = _prog('urn:a', [{'ns': 'urn:b', 'name': 'Base', 'parent': None, 'fields': [_f('a', P('int'))]},
+                         {'ns': 'urn:b', 'name': 'Sub', 'parent': 0, 'fields': [_f('b', P('text'))]}],
+               [(('ref', 0), 0, True, True), (('arr', ('ref', 0)), 0, True, True)])
+    new0 = [{'ns': 'urn:b', 'name': 'Sub2', 'parent': 1, 'fields': [_f('c', P('int'))]},
+            {'ns': 'urn:b', 'name': 'Sub3', 'parent': 0, 'fields': [_f('d', P('bool'))]}]
+    warm0 = [(0, ('obj', 1, [('int', 1), ('text', 'x')])), (1, ('list', [('obj', 0, [('int', 2)]), ('obj', 1, [('int', 3), ('none',)])]))]
+    run_growing(check, d0, warm0, new0, rng)
+    for _ in range(1 if tier == 'quick' else 6):
+        desc = gen_tree(rng)
+        warm = [(mi, gen_value(rng, desc, m['ty'], depth=rng.randint(1, 2), in_quant=True)) for mi, m in enumerate(desc['methods'])]
+        new = grow_plan(rng, desc)
+        if new:
+            run_growing(check, desc, warm, new, rng)
+
+
+# ------------------------------------------------------------------ declared types customised twice (oracle only)
+def probe_twice_customised(check):
+    """P.customize(..).customize(..), Array(P.customize(..)) and Array(Mandatory(P)) as declared types,
+    holding instances of subclasses of P: the comparison class of get_polymorphic_target must be the
+    class the variants originate from, however many customisations lie in between"""
+    P = lambda p: ('prim', p)
+    desc = _prog('urn:a', [{'ns': 'urn:b', 'name': 'P', 'parent': None, 'fields': [_f('a', P('int'))]},
+                           {'ns': 'urn:b', 'name': 'Q', 'parent': 0, 'fields': [_f('b', P('text'))]},
+                           {'ns': 'urn:b', 'name': 'R', 'parent': 1, 'fields': [_f('c', P('int'))]}],
+                 [(('ref', 0), 1, False, False, 'cc'),
+                  (('arr', ('ref', 0)), 0, True, True, 'arr_cust'),
+                  (('arr', ('ref', 0), 'MandatoryP'), 0, True, True, 'arr_mand')])
+    b = build(desc)
+    p, q, r = ('obj', 0, [('int', 1)]), ('obj', 1, [('int', 2), ('text', 'q')]), ('obj', 2, [('int', 3), ('none',), ('int', 4)])
+    cases = [(0, q), (0, r), (0, p), (1, ('list', [p, q, r])), (2, ('list', [q, r]))]
+    for mi, v in cases:
+        for proto in XML_PROTOS + DICT_PROTOS:
+            oracle_case(check, desc, b, mi, v, proto, True, tag='customised-twice:' + desc['methods'][mi]['decl'])
+            check.count(('twice', proto, mi, repr(v)))
+            if mi < 2:
+                oracle_case(check, desc, b, mi, v, proto, False, tag='customised-twice:' + desc['methods'][mi]['decl'])
 
 
 # ------------------------------------------------------------------ known finding: member-less root base
@@ -1445,7 +1599,12 @@ def run(check):
                   'valid and mutated documents (wrapper key renamed, doubled, emptied, replaced). Direct oracle: every value '
                   'through a loopback client and ServerBase for six protocols x polymorphic on/off (objects received by user '
                   'code and by the client, type markers, member order and member set of both documents), and requests whose '
-                  'marker names an unknown / unrelated class. A case is distinct by (operation, protocol, polymorphic, '
+                  'marker names an unknown / unrelated class; declared types customised twice (P.customize().customize(), '
+                  'Array(P.customize()), Array(Mandatory(P))) holding subclass instances; growing hierarchies: a tree is used '
+                  'through all six protocols, further subclasses are then defined below a root, a middle class and a leaf '
+                  '(no customize()/Array() in between), and instances of the new classes are sent where the old bases are '
+                  'declared, dict protocols through the existing applications and all six through fresh ones. '
+                  'A case is distinct by (operation, protocol, polymorphic, '
                   'program, value or document).')
     check.trusted = list(lib.COMMON_TRUSTED) + [
         'lxml: SubElement(..., nsmap={prefix: uri}) declares the prefix on the new element; cleanup_namespaces('
@@ -1470,6 +1629,9 @@ def run(check):
         'subclasses), pfx_ok of every allocated prefix, populate returns Some (fuel)',
         'the values the oracle runs are conformant in the theorems\' sense (correspondence "conformance"): runtime '
         'classes other than the declared one are registered; no None inside lists; complex / array members are optional',
+        'the universe of the theorems is fixed: the memoisation of get_subclasses / get_flat_type_info and its '
+        'invalidation when classes are defined later are not modelled; that part is covered by the growing-hierarchy '
+        'oracle only',
         'validator=None for the theorems (soft validation is modelled and exercised by the xml_dec correspondence only); '
         'ignore_wrappers=False, complex_as=dict, default polymap, no sub_name / sub_ns / XmlData / XmlAttribute / mixins',
     ]
@@ -1486,6 +1648,8 @@ def run(check):
         desc = gen_tree(rng, override=True)
         run_program(check, desc, 'override program %d' % pi, tier, with_codecs=False)
     probe_empty_root(check)
+    probe_twice_customised(check)
+    oracle_growing(check, tier)
     lib.flush_correspondences(check)
     check.extra['outcomes_by_mutation'] = dict(sorted(STATS.items()))
     check.extra['oracle'] = dict(ORACLE)
@@ -1507,16 +1671,28 @@ def replay(check, path):
     rp = r.get('replay', {})
     print('property %s  key %s' % (r.get('property'), r.get('key')))
     print('recorded: %s' % r.get('what', '')[:1500])
-    if rp.get('kind') not in ('roundtrip', 'negative'):
+    if rp.get('kind') not in ('roundtrip', 'negative', 'growing'):
         print(json.dumps(rp, indent=1)[:3000])
         return 0
     desc = rp['program']
-    for c in desc['classes']:
+    for c in desc['classes'] + rp.get('grow', []):
         for f in c['fields']:
             f['ty'] = _tuplify(f['ty'])
     for m in desc['methods']:
         m['ty'] = _tuplify(m['ty'])
     v = _tuplify(rp['value'])
+    if rp['kind'] == 'growing':
+        warm = [(mi, _tuplify(w)) for mi, w in rp['warm']]
+        fails = [f for f in run_growing(check, desc, warm, rp['grow'], only=[(rp['method'], v)])]
+        # only the recorded step (same / fresh application, protocol) decides
+        tagw = 'grown-fresh-app' if rp.get('fresh') else 'grown-same-app'
+        fails = [(k, w) for k, w in fails if tagw in k and ('|%s|' % rp['protocol']) in k]
+        check.violations[:] = []
+        for k, w in fails:
+            print('replay: STILL FAILS [%s] %s' % (k, w[:1200]))
+        if not fails:
+            print('replay: the case passes on this tree')
+        return 1 if fails else 0
     b = build(desc)
     if rp['kind'] == 'roundtrip':
         fails = oracle_case(check, desc, b, rp['method'], v, rp['protocol'], rp['polymorphic'], report=False)
